@@ -4,7 +4,7 @@ CONSTANTS K = 3
           Ranges = {13}
           WithBatch = FALSE
           Mode = "replay"
-          Depth = 4
+          Depth = 3
 CONSTRAINT EmitTrace
 INVARIANT PropC11
 CHECK_DEADLOCK FALSE
